@@ -346,7 +346,10 @@ class Item:
                 continue
             # a loop inside a region an earlier R4 / R6 directive replaced wholesale is not a loop of the woven function (and does not
             # take part in the numbering: the loops after it keep their ordinals whether or not that region is present)
-            if any(e[3] == "rewrite" and e[0] < s < e[1] for e in self.edits):
+            def _r4(e):
+                mo_ = re.match(r"/\*\+vxR:(\d+)\*/", e[2])
+                return bool(mo_) and self.log[int(mo_.group(1))]["rule"].startswith(("R4", "R6"))
+            if any(e[3] == "rewrite" and e[0] <= s < e[1] and _r4(e) for e in self.edits):
                 continue
             j, par = bo + mo.end(), 0
             while j < end:
